@@ -887,3 +887,28 @@ def _s_endswith(ex, st, base, args, kwargs, k, where):
     if base.lit is not None and getattr(a, "lit", None) is not None:
         return k(st, VBool(TRUE if base.lit.endswith(a.lit) else FALSE))
     return k(st, VBool(_ufun(ex, "str_endswith", [STR, STR], BOOL, base.t, a.t)))
+
+
+@method("VInt", "to_bytes")
+def _i_to_bytes(ex, st, base, args, kwargs, k, where):
+    n = args[0] if args else kwargs.get("length")
+    if not (isinstance(n, VInt) and is_lit(n.t)) or lit_val(n.t) not in WIDTHS:
+        raise Unsupported(f"int.to_bytes length at {where}")
+    size = lit_val(n.t)
+    order = (args[1] if len(args) > 1 else kwargs.get("byteorder"))
+    if not (isinstance(order, VStr) and order.lit == "big"):
+        raise Unsupported("int.to_bytes byteorder")
+    ok = And(Le(I(0), base.t), Lt(base.t, I(256 ** size)))
+    outs = []
+    if Not(ok).s != "false":
+        outs += ex.raise_(st.assume(Not(ok)), "OverflowError", where)
+    s2 = st.assume(ok)
+    outs += k(s2, VBytes(be(ex, s2, size, base.t)))
+    return outs
+
+
+@REG.specfn("str_slice")
+def _str_slice(ex, st, s, lo, hi):
+    lo = lo if lo is not None else I(0)
+    hi = hi if hi is not None else I(-1)
+    return VStr(_ufun(ex, "str_slice", [STR, INT, INT], STR, s.t, lo, hi))
